@@ -450,7 +450,8 @@ func transTVFTypeWithSet(visited SSet, transTV func(TypeVar) FType, ftp FType) F
 		ut := _v17.Value
 		uname := utName(ut)
 		return frt.IfElse(SSetHasKey(visited, uname), (func() FType {
-			return ftp
+			vtargs := slice.Map(recurse, ut.Targs)
+			return New_FType_FUnion(UnionType{Name: ut.Name, Targs: vtargs})
 		}), (func() FType {
 			SSetPut(visited, uname)
 			cases := utCases(ut)
